@@ -147,8 +147,14 @@ def render_modules(classes: list[HClass]) -> dict:
                         imports.append(f"from pk.{b.module} import {b.src_name} as {local[b]}")
                     else:
                         local[b] = b.src_name
-                        imports.append(f"from pk.{b.module} import {b.src_name}")
+                        # absolute or relative spelling of the import (by the name's own letters: stable per class)
+                        rel = sum(map(ord, b.name)) % 2 == 0
+                        imports.append(f"from {'.' if rel else 'pk.'}{b.module} import {b.src_name}")
             text.append(c.source(local))
+            if c.bases and sum(map(ord, c.name)) % 3 == 0:
+                # the base class also occurs in a checked value expression of this module
+                bname = local.get(c.bases[0], c.bases[0].src_name)
+                text.append(f"def _is_{c.name.strip('_').lower()}(x: object) -> bool:\n    return isinstance(x, {bname})\n")
         files[f"src/pk/{mod}.py"] = "".join(dict.fromkeys(ln + "\n" for ln in imports)) + "\n\n" + "\n".join(text)
     del order
     return files
